@@ -167,7 +167,12 @@ class BuiltinMixin(object):
                     ids.append(self.world.cid(n))
             if ids:
                 a = Val.addr(t)
-                cs.append(z3.And(Val.is_VRef(t), a != 0, z3.Or(*[self.H(st, 'cls')[a] == i for i in ids])))
+                cs.append(z3.And(Val.is_VRef(t), a > 0, z3.Or(*[self.H(st, 'cls')[a] == i for i in ids])))
+            import types as _t
+            if any(c is _t.FunctionType for c in classes):
+                cs.append(z3.And(Val.is_VRef(t), Val.addr(t) <= -1000))      # function objects (see Executor.term)
+            if any(c is type for c in classes):
+                cs.append(z3.And(Val.is_VRef(t), Val.addr(t) < 0, Val.addr(t) > -1000))
             return self.or_(cs)
         raise OutOfReach('isinstance on %r' % (x,))
 
